@@ -54,6 +54,7 @@ type Ctx struct {
 	prog            *Program
 	unitName        string
 	unitContract    *Contract
+	unitFree        map[string]SVal // a function literal as a unit: its captured variables (pointers to the enclosing function's cells), by name
 	passNo          int // 1 on the first pass over the unit (loop write sets unknown), then 2, 3, ...
 	decls           []string
 	declared        map[string]Sort
